@@ -19,6 +19,7 @@ def Cpt.mapSrc (f : K → K) : Cpt K → Cpt K
   | .I n1 n2 i => .I n1 n2 (f i)
   | .Cap n1 n2 c v0 => .Cap n1 n2 c (v0.map f)
   | .Ind n1 n2 m l i0 coup => .Ind n1 n2 m l (i0.map f) (coupMap f coup)
+  | .HY n1 n2 m n3 n4 mc y isc h => .HY n1 n2 m n3 n4 mc y (f isc) h      -- isc = C·v0 of the controlling capacitor
   | c => c
 
 /-- value-wise sum of two components of the same shape (the second is ignored where shapes differ) -/
@@ -37,6 +38,7 @@ def Cpt.addSrc : Cpt K → Cpt K → Cpt K
   | .I n1 n2 i, .I _ _ i' => .I n1 n2 (i + i')
   | .Cap n1 n2 c v0, .Cap _ _ _ v0' => .Cap n1 n2 c (optAdd v0 v0')
   | .Ind n1 n2 m l i0 coup, .Ind _ _ _ _ i0' coup' => .Ind n1 n2 m l (optAdd i0 i0') (coupAdd coup coup')
+  | .HY n1 n2 m n3 n4 mc y isc h, .HY _ _ _ _ _ _ _ isc' _ => .HY n1 n2 m n3 n4 mc y (isc + isc') h
   | c, _ => c
 
 /-- two components differ at most in their independent quantities -/
@@ -58,6 +60,14 @@ def Cpt.sameShape [DecidableEq K] : Cpt K → Cpt K → Bool
   | .AM a b m, .AM a' b' m' => a == a' && b == b' && m == m'
   | .TR a b m t, .TR a' b' m' t' => a == a' && b == b' && m == m' && t == t'
   | .Open a b, .Open a' b' => a == a' && b == b'
+  | .TPA a b c d m p q r t, .TPA a' b' c' d' m' p' q' r' t' =>
+      a == a' && b == b' && c == c' && d == d' && m == m' && p == p' && q == q' && r == r' && t == t'
+  | .TPY a b c d p q r t, .TPY a' b' c' d' p' q' r' t' =>
+      a == a' && b == b' && c == c' && d == d' && p == p' && q == q' && r == r' && t == t'
+  | .HY a b m c d mc p q r, .HY a' b' m' c' d' mc' p' q' r' =>
+      a == a' && b == b' && c == c' && d == d' && m == m' && mc == mc' && p == p' && r == r'
+  | .SP a b c d m p q r, .SP a' b' c' d' m' p' q' r' =>
+      a == a' && b == b' && c == c' && d == d' && m == m' && p == p' && q == q' && r == r'
   | _, _ => false
 
 /-- kill every independent source and initial condition -/
